@@ -474,7 +474,10 @@ class EvolutionarySolver(RandomSearchSolver):
         scores_hof = list(zip(*self.hof))[0]
 
         depth_pop = [circuit.depth for (_, circuit) in population]
-        depth_hof = [circuit.depth for (_, circuit) in self.hof]
+        # the hall of fame holds placeholder entries (inf, None) until enough circuits were found
+        depth_hof = [
+            circuit.depth for (_, circuit) in self.hof if circuit is not None
+        ]
 
         self.logs["population"].append(
             dict(
